@@ -23,8 +23,8 @@ from .core import Ctx, Inconclusive, StopRun, Violation
 from .tape import Tape, tape_seed
 
 VERIF = Path(__file__).resolve().parent.parent
-EVIDENCE_DIR = VERIF / "evidence"
-REPLAY_DIR = VERIF / "replays"
+EVIDENCE_DIR = Path(os.environ.get("VERIF_EVIDENCE_DIR") or VERIF / "evidence")
+REPLAY_DIR = Path(os.environ.get("VERIF_REPLAY_DIR") or VERIF / "replays")
 KNOWN_FINDINGS = VERIF / "known_findings.json"
 
 LEVELS = {
@@ -261,7 +261,7 @@ def _minimise_job(mname, seed, tier, values, frames, target):
 
 
 def write_replay(prop, mname, seed, tier, run_index, res, target, minimised, n_min_exec, original_len):
-    REPLAY_DIR.mkdir(exist_ok=True)
+    REPLAY_DIR.mkdir(parents=True, exist_ok=True)
     path = REPLAY_DIR / f"{prop}-{mname}-{seed}-{run_index}.json"
     data = {
         "property": prop,
@@ -549,7 +549,7 @@ def run_check(prop: str, machines: list[str], tier: str, seed: int, out=sys.stdo
                 ev["coverage"].update(extra(per_machine[mod.NAME]))
             except Exception:  # noqa: BLE001
                 pass
-    EVIDENCE_DIR.mkdir(exist_ok=True)
+    EVIDENCE_DIR.mkdir(parents=True, exist_ok=True)
     (EVIDENCE_DIR / f"{prop}.json").write_text(json.dumps(ev, indent=1, default=str))
 
     # report
